@@ -216,7 +216,7 @@ def selftest(ctx):
             log("selftest impl-mode accepted->rejected at line %d -> %s" % (i + 1, "rejected at line %s" % r if r else "ACCEPTED"))
             ok &= r == i + 1
             break
-    for fault in ("ld-panic", "sub-overalloc", "rt-break"):
+    for fault in ("ld-panic", "sub-overalloc", "rt-break", "unusable"):
         harness(ctx, "decoders", base + ["--out", ctx.path("f.ndjson")], env={"VERIF_FAULT": fault})
         fb, fp, _ = partition(read_lines(ctx.path("f.ndjson")))
         fl = fb + fp
@@ -228,6 +228,9 @@ def selftest(ctx):
     src = open(os.path.join(SPEC, "Decoders.tla")).read()
     muts = [("third length byte accepted", 'IF t \\in LdCont THEN [s EXCEPT !.st = "maxlen"]', 'IF t \\in LdCont THEN [s EXCEPT !.st = "data", !.rem = MaxFrame + 1, !.cur = <<>>]'),
             ("listener accepts after undecodable second message", 'ELSE IF ~Decodable(c.second) THEN "error"\n         ELSE IF ~IsProto(c.second) THEN "error"', 'ELSE IF ~Decodable(c.second) THEN "accepted"\n         ELSE IF ~IsProto(c.second) THEN "error"')]
+    muts.append(("parser accepts any inline digest length",
+                 'ImplAcceptsPeerId(c) == c.dlen <= 64 /\\ (c.code = "sha2_256" \\/ (c.code = "identity" /\\ c.dlen <= MaxInlineKey))',
+                 'ImplAcceptsPeerId(c) == c.dlen <= 64 /\\ (c.code = "sha2_256" \\/ c.code = "identity")'))
     for name, a, b in muts:
         m = src.replace(a, b)
         if m == src:
